@@ -16,6 +16,7 @@ CORR = ("Correspondence: the real code (imported from /repo) and the executable 
 
 TRANSLATOR = {
     'C04': "find_token, find_token_reverse, try_find_line, try_find_line_with_date, __getitem__",
+    'C09': "logrotate_log_sort (control flow around the three NameRx expressions)",
     'C11': "find_token, find_token_reverse, try_find_line, try_find_line_with_date, __getitem__",
     'C13': "find_token, find_token_reverse, try_find_line, try_find_line_with_date, __getitem__",
     'C06': "ResultStoreParallel.preallocate (its sequential meaning)",
@@ -272,7 +273,7 @@ def main():
             'serves_properties': [c['property_id'] for c in checks],
             'kind_free_text': "hand-written executable Lean 4 model + kernel-checked theorems; "
                               "differential correspondence check of the model against /repo; "
-                              "for fourteen functions also a Python-to-Lean translator whose output "
+                              "for fifteen functions also a Python-to-Lean translator whose output "
                               "is proved equal to the model (bridge theorems)",
         }],
         'checks': checks,
